@@ -92,7 +92,10 @@ def _join_new_threads(before: set, timeout: float = 5.0) -> None:
     # (threads started by the simulated main thread inherit its daemon flag; in a real process they would not be daemons)
     for t in set(threading.enumerate()) - before:
         if t is not threading.current_thread() and not t.name.startswith('nlv-') and not isinstance(t, threading._DummyThread):
-            t.join(timeout)
+            try:
+                t.join(timeout)
+            except RuntimeError:      # a thread still being started (enumerate() lists those too)
+                pass
 
 
 def reference(spec: dict) -> dict:
@@ -407,7 +410,10 @@ def run_batch(specs: list[dict]) -> list[dict]:
                 for t in set(threading.enumerate()) - before:
                     if t is not threading.current_thread() and not t.name.startswith(('nlv-', 'MainThread-sim')) \
                             and not isinstance(t, threading._DummyThread):
-                        t.join(5)
+                        try:
+                            t.join(5)
+                        except RuntimeError:
+                            pass
             else:
                 out.append({'spec': {k: v for k, v in s.items() if k != 'tmpdir'}, 'harness_error': 'TIMEOUT: the traced run did not finish'})
                 break      # the process is wedged (sys.settrace state); the caller restarts the batch remainder
